@@ -11,7 +11,7 @@
 EXTENDS Integers, Sequences, FiniteSets, TLC
 
 RECURSIVE Cum(_, _)
-Cum(sizes, k) == IF k = 0 THEN 0 ELSE Cum(sizes, k - 1) + sizes[k]
+Cum(sizes, k) == IF k <= 0 THEN 0 ELSE Cum(sizes, k - 1) + sizes[k]
 Total(sizes) == Cum(sizes, Len(sizes))
 
 Refused(sizes, bound, ncvrs) == Total(sizes) > bound \/ Total(sizes) < ncvrs
